@@ -39,6 +39,10 @@ func runC01(c *Ctx) {
 		importObls(c, "C10", runC10, "X10", func(k string) bool { return containsAny(k, "transports/obfs4", "common/probdist") })
 	}
 	p := c.P
+	// a stream whose valid handshake is refused delivers nothing
+	c06ParserDecides(c, p, "R10")
+	parserVerdictAfterSearch(c, p, "R10")
+	noBackgroundConnWrites(c, p, newConnIO(p), "R10", "transports/obfs4")
 	// "both directions in use at once from one reader and one writer goroutine": the only state the two
 	// goroutines share is the length/delay distributions (the writer samples, the reader re-seeds them)
 	if reset, sample := p.Func("common/probdist:(*WeightedDist).Reset"), p.Func("common/probdist:(*WeightedDist).Sample"); reset != nil && sample != nil {
